@@ -393,6 +393,16 @@ Theorem C13_source_range_match : forall pre p t,
 Proof. exact IdxTie.tie_range_match. Qed.
 Print Assumptions C13_source_range_match.
 
+(* ... and on a class in its documented form the regenerated function returns the index just after the closing bracket
+   exactly when the character belongs to the class (xor negation), -1 otherwise *)
+Theorem C13_source_range_match_class_doc : forall pre neg items rest t, forallb citem_ok items = true ->
+  IdxLang.xrun (38 + length (class_text neg items ++ rest)) RangeMatchGen.range_match_params RangeMatchGen.range_match_locals
+       RangeMatchGen.range_match_gen
+       [IdxLang.XS (pre ++ class_text neg items ++ rest); IdxLang.XZ (Z.of_nat (length pre)); IdxLang.XS [t]] =
+  Ok (IdxLang.XZ (if xorb (existsb (citem_has t) items) neg then Z.of_nat (length (pre ++ class_text neg items)) else (-1)%Z)).
+Proof. exact IdxTie.tie_range_match_doc. Qed.
+Print Assumptions C13_source_range_match_class_doc.
+
 Example C13_source_range_example :
   (* "[a-c]x" at index 1 on 'b' -> 5 ; on 'd' -> -1 ; "[!a]" at 1 on 'b' -> 4 *)
   IdxLang.xrun 60 RangeMatchGen.range_match_params RangeMatchGen.range_match_locals RangeMatchGen.range_match_gen
